@@ -35,11 +35,107 @@ func Term(v ssa.Value) string {
 	return r.term(v)
 }
 
+// ParamPerm returns, for a source function whose parameter names are a
+// permutation of its baseline names, perm[baselineIndex] = currentIndex (both
+// excluding the receiver); nil otherwise.
+func ParamPerm(fn *ssa.Function) []int {
+	if fn == nil || fn.Parent() != nil {
+		return nil
+	}
+	off := 0
+	if fn.Signature.Recv() != nil {
+		off = 1
+	}
+	base := BaselineParams(FnName(fn))
+	if len(base) != len(fn.Params)-off || len(base) < 2 {
+		return nil
+	}
+	cur := map[string]int{}
+	same := true
+	for i, q := range fn.Params[off:] {
+		if q.Name() == "_" {
+			return nil
+		}
+		if _, dup := cur[q.Name()]; dup {
+			return nil
+		}
+		cur[q.Name()] = i
+		if q.Name() != base[i] {
+			same = false
+		}
+	}
+	if same {
+		return nil
+	}
+	perm := make([]int, len(base))
+	for i, b := range base {
+		j, ok := cur[b]
+		if !ok {
+			return nil
+		}
+		perm[i] = j
+	}
+	return perm
+}
+
+// BaselineArgs reorders the arguments of a static call into the callee's baseline parameter order.
+func BaselineArgs(c *ssa.CallCommon) []ssa.Value {
+	callee := c.StaticCallee()
+	perm := ParamPerm(callee)
+	if perm == nil {
+		return c.Args
+	}
+	off := 0
+	if callee.Signature.Recv() != nil {
+		off = 1
+	}
+	if len(c.Args) != len(perm)+off {
+		return c.Args
+	}
+	out := make([]ssa.Value, len(c.Args))
+	copy(out, c.Args[:off])
+	for i, j := range perm {
+		out[off+i] = c.Args[off+j]
+	}
+	return out
+}
+
 func paramName(p *ssa.Parameter) string {
 	fn := p.Parent()
 	off := 0
 	if fn.Signature.Recv() != nil {
 		off = 1
+	}
+	// Parameters are named by position in the baseline signature: if the current
+	// parameter names are a permutation of the baseline names (an unexported
+	// function whose parameters were reordered), positions are mapped by name.
+	if fn.Parent() == nil {
+		if base := BaselineParams(FnName(fn)); len(base) == len(fn.Params)-off && len(base) > 1 {
+			perm, same := true, true
+			idx := -1
+			count := map[string]int{}
+			for _, b := range base {
+				count[b]++
+			}
+			for i, q := range fn.Params[off:] {
+				if count[q.Name()] != 1 || q.Name() == "_" {
+					perm = false
+				}
+				if q.Name() != base[i] {
+					same = false
+				}
+			}
+			if perm && !same {
+				for i, b := range base {
+					if b == p.Name() {
+						idx = i
+					}
+				}
+				if idx >= 0 {
+					return "$" + strconv.Itoa(idx)
+				}
+			}
+		}
 	}
 	for i, q := range fn.Params {
 		if q == p {
@@ -161,7 +257,7 @@ func (r *renderer) term(v ssa.Value) string {
 		if name == "" {
 			return "call(" + r.term(x.Call.Value) + ")(" + r.args(x.Call.Args) + ")"
 		}
-		return name + "(" + r.args(x.Call.Args) + ")"
+		return name + "(" + r.args(BaselineArgs(&x.Call)) + ")"
 	case *ssa.Extract:
 		return r.term(x.Tuple) + "#" + strconv.Itoa(x.Index)
 	case *ssa.BinOp:
